@@ -38,6 +38,26 @@ class Ctx:
             raise AnalysisError("anchor vanished: class ExperimentLexer")
         return self.lexers["ExperimentLexer"]
 
+
+    def require_table_driven(self):
+        """Called by the rules that reason about where tokens start and end."""
+        if self.__dict__.get("_table_driven_checked"):
+            return
+        self.__dict__["_table_driven_checked"] = True
+        # the lexer model reads what is consumed from the rule table (patterns, order, states).  A token action that moves the
+        # scanning position or replaces the text itself consumes input outside that table: the model would be wrong about where
+        # the next token starts, silently.  (error() is judged by its own rule.)
+        for lc in self.lexers.values():
+            for st in ast.walk(lc.node):
+                if isinstance(st, ast.FunctionDef) and st.name != "error":
+                    selfn = st.args.args[0].arg if st.args.args else "self"
+                    for x in ast.walk(st):
+                        tg = x.targets if isinstance(x, ast.Assign) else ([x.target] if isinstance(x, (ast.AugAssign, ast.AnnAssign)) else [])
+                        for t in tg:
+                            if isinstance(t, ast.Attribute) and dotted(t.value) == selfn and t.attr in ("index", "text"):
+                                raise AnalysisError(f"{lc.name}.{st.name} assigns {selfn}.{t.attr}: a token action that moves the scanning "
+                                                    "position consumes input outside the rule table the lexer model is built from")
+
     @cached_property
     def states(self):
         """Lexer classes that are actually used as lexer states: the main lexer and everything it (transitively)
@@ -60,8 +80,8 @@ class Ctx:
             pats = [r.pattern for r in lc.rules]
             names = [r.name for r in lc.rules]
             # sly's `ignore` characters are skipped before the master regex is tried; `literals` after
-            if lc.ignore_chars or lc.literals:
-                raise AnalysisError(f"{name}: sly `ignore`/`literals` specifiers are not modelled")
+            if lc.literals:
+                raise AnalysisError(f"{name}: sly `literals` specifiers are not modelled")
             cache[name] = Lexicon(pats, names)
             for r in lc.rules:
                 self.rep.unit(f"lexer rule {name}.{r.name} = {r.pattern!r}")
